@@ -532,6 +532,19 @@ def _coverage(repo, rep):
               "'X'+'Page' must not equal class 'PageTemplate' + body 'X')",
               construct="base:unambiguous", where=L.where(d),
               detail=str(fields))
+    # ... a terminator ends a field only if the field cannot contain it:
+    # the file name is arbitrary text and goes in as a literal (repr) or
+    # with its length
+    fn_ups = [u for u in ups if "filename" in src(
+        L.inline_locals(d.node, u.args[0])) and "body" not in src(u)]
+    rep.check(bool(fn_ups) and all(any(
+        isinstance(c_, ast.Call) and src(c_.func) in ("repr", "len")
+        for c_ in ast.walk(L.inline_locals(d.node, u.args[0])))
+        for u in fn_ups), "R15.1", d.qualname, "the file-name field of the "
+        "key is self-delimiting (a line break in the name does not end it: "
+        "name 'a\\nq' + body B is not name 'a' + body 'q\\n' + B)",
+        construct="base:filename-delimited", where=L.where(d),
+        detail="; ".join(src(u)[:70] for u in fn_ups))
     rep.check(not any(lossy for _, _, lossy, _ in fields), "R15.1",
               d.qualname, "text is encoded for hashing without dropping or "
               "replacing characters", construct="base:lossless-encoding",
